@@ -145,3 +145,69 @@ def _fill_contract(ctx, prog, rule):
         ok = ok and not w.failed
     ctx.ob(rule, "contract:fill_padding_value", ok, "Ok => size <= len(buffer); its own slice is in range", info["where"])
     return ok
+
+
+def r14_7_length_field(ctx, prog, rule="R14.7"):
+    ctx.rule(rule, "the 16-bit message length: every value MessageEncoder::encode writes into bytes 2..4 of the header is either the "
+                   "constant 0 (before the attributes) or a value that a `u16::try_from` / `try_into` in the same iteration has accepted "
+                   "- exactly that value, not an earlier partial sum - and it is the running length including this attribute's padding "
+                   "(= the next iteration's length); so a message whose attributes do not fit the length field is rejected rather than "
+                   "written with a wrapped length.  Decided on the first and on the generic iteration, as R14.6")
+    body = prog.body(ENC)
+    paths, info = C.explore_fn(prog, ENC, "enc", [r"MessageEncoder::encode::\{closure"])
+    ctx.fn(body)
+    L = LP.Lin(LP.Namer(_rename))
+    n = n_iter = 0
+    bad = {}
+
+    def header_writes(pa, lo_i, hi_i):
+        out = []
+        for i in range(lo_i, hi_i):
+            e = pa.log[i]
+            if e[0] != "call" or not re.search(r"ByteOrder>::write_u16$", e[1]):
+                continue
+            a = C.expr_of(pa, e[2], 0, i)
+            root, lo, hi = L.view(a[0])
+            if not (lo == {1: 2} and hi == {1: 4}):
+                continue                                    # not bytes 2..4 of the view it indexes
+            r0 = LP.strip(a[0])
+            base = LP.strip(r0[1]) if LP.is_index(r0) else None
+            if isinstance(base, tuple) and len(base) == 2 and base[1] == ".1":
+                continue                                    # second half of the split: the current attribute's own length field
+            out.append((i, a[1]))
+        return out
+    for pa in paths:
+        heads = [i for i, e in enumerate(pa.log) if e[0] == "loop-head" and e[1] == body.path]
+        for (i, v) in header_writes(pa, 0, heads[0] if heads else len(pa.log)):
+            n += 1
+            if v != 0:
+                bad["before the attribute loop the length field is set to %s, not 0" % show(v)[:60]] = pa
+        for k, h in enumerate(heads):
+            end = heads[k + 1] if k + 1 < len(heads) else len(pa.log)
+            sp = [i for i in range(h, end) if pa.log[i][0] == "call" and re.search(r"split_at_mut$", pa.log[i][1])]
+            if not sp:
+                continue
+            idx = L.lin(C.expr_of(pa, pa.log[sp[0]][2], 0, sp[0])[1])
+            sym = [x for x in idx if x != 1]
+            if idx.get(1, 0) != 20 or len(sym) > 1 or (sym and ("widened" not in sym[0] or idx[sym[0]] != 1)):
+                continue            # a later concrete iteration: labels of earlier iterations would be conflated (see R14.6)
+            n_iter += 1
+            # the next iteration's length, from its split index (length' + 20), when this path has a next iteration
+            nxt = None
+            if k + 1 < len(heads):
+                end2 = heads[k + 2] if k + 2 < len(heads) else len(pa.log)
+                sp2 = [i for i in range(end, end2) if pa.log[i][0] == "call" and re.search(r"split_at_mut$", pa.log[i][1])]
+                if sp2:
+                    nxt = LP.add(L.lin(C.expr_of(pa, pa.log[sp2[0]][2], 0, sp2[0])[1]), {1: -20})
+            for (i, v) in header_writes(pa, h, end):
+                n += 1
+                lv = L.lin(v)
+                acc = [j for j in range(h, i) if pa.log[j][0] == "narrow" and pa.log[j][1] == "u16" and pa.log[j][3] == "Ok"]
+                if not any(L.lin(C.expr_of(pa, pa.log[j][2], 0, j)) == lv for j in acc):
+                    bad["the value written at 2..4 was not the one accepted by u16::try_from: %s" % show(v)[:110]] = pa
+                elif nxt is not None and nxt != lv:
+                    bad["the value written at 2..4 is not the length the next iteration starts from: %s" % show(v)[:110]] = pa
+    for why, pa in sorted(bad.items())[:3]:
+        ctx.ob(rule, "length-field:unchecked", False, why, info["where"], replay=pa.describe())
+    ctx.ob(rule, "length-field", not bad and n >= 3 and n_iter >= 2,
+           "%d header-length writes in %d first / generic iterations: each writes exactly the value u16::try_from accepted" % (n, n_iter), info["where"])
